@@ -70,33 +70,39 @@ def minGen (rw : E → Prec → Option E) : Nat → E → Prec → Option E
     | lit l => some (lit l)
     | bin op x y =>
       if mergesStrings op x y then none else
-      -- convert (a,b)&&c into a,b&&c at statement level
+      -- the binary expression proper, `x1` being the left operand
+      let core : E → Option E := fun x1 =>
+        if op == .inOp || op == .instOf then
+          match minGen rw fuel x1 op.left, minGen rw fuel y op.right with
+          | some x', some y' => some (bin op x' y')
+          | _, _ => none
+        else
+          let e2 : BOp × E × E := match isUndefinedOrNullVar (bin op x1 y) with
+            | some (v, neg) => ((if neg then BOp.ne else BOp.eq), var v, lit .null)
+            | none => (op, x1, y)
+          let op2 := e2.1
+          let x2 := e2.2.1
+          let y2 := e2.2.2
+          let op3 : BOp :=
+            if (op2 == .seq || op2 == .sne) && ((isTypeof x2 && isStrLit y2) || (isTypeof y2 && isStrLit x2)) then
+              (if op2 == .seq then .eq else .ne)
+            else op2
+          match minGen rw fuel x2 op.left, minGen rw fuel y2 op3.right with
+          | some x', some y' => some (bin op3 x' y')
+          | _, _ => none
+      -- convert (a,b)&&c into a,b&&c at statement level: the last item becomes the left operand
       let hoist : Option (List E) :=
         if p ≤ opExpr then
           match x with
-          | group (comma l) => if opAnd ≤ (lastD l x).prec then some l else none
+          | group (comma l) => if op.left ≤ (lastD l x).prec then some l else none
           | _ => none
         else none
-      let x1 : E := match hoist with | some l => comma l | none => x
-      let precLeft : Prec := match hoist with | some _ => opExpr | none => op.left
-      if op == .inOp || op == .instOf then
-        match minGen rw fuel x1 precLeft, minGen rw fuel y op.right with
-        | some x', some y' => some (bin op x' y')
-        | _, _ => none
-      else
-        let e2 : BOp × E × E := match isUndefinedOrNullVar (bin op x1 y) with
-          | some (v, neg) => ((if neg then BOp.ne else BOp.eq), var v, lit .null)
-          | none => (op, x1, y)
-        let op2 := e2.1
-        let x2 := e2.2.1
-        let y2 := e2.2.2
-        let op3 : BOp :=
-          if (op2 == .seq || op2 == .sne) && ((isTypeof x2 && isStrLit y2) || (isTypeof y2 && isStrLit x2)) then
-            (if op2 == .seq then .eq else .ne)
-          else op2
-        match minGen rw fuel x2 precLeft, minGen rw fuel y2 op3.right with
-        | some x', some y' => some (bin op3 x' y')
-        | _, _ => none
+      match hoist with
+      | some l =>
+        (match mapO (fun a => minGen rw fuel a opAssign) l.dropLast, core (lastD l x) with
+         | some init', some b' => some (comma (init' ++ [b']))
+         | _, _ => none)
+      | none => core x
     | unary op x =>
       if op == .postinc || op == .postdec then
         (minGen rw fuel x op.argPrec).map (unary op)
@@ -116,9 +122,7 @@ def minGen (rw : E → Prec → Option E) : Nat → E → Prec → Option E
       | some x' =>
         match y with
         | lit (.str s) =>
-          if s != "" && s.toList.all Char.isAlpha then
-            -- a["b"] → a.b (the integer check of the DotExpr case is missing here in the Go code)
-            (match x' with | lit (.num _) => none | _ => some (dot x' s))
+          if s != "" && s.toList.all Char.isAlpha then some (dot x' s)   -- a["b"] → a.b
           else (minGen rw fuel y opExpr).map (index x')
         | _ => (minGen rw fuel y opExpr).map (index x')
     | group x =>
